@@ -422,3 +422,20 @@ Proof.
     { unfold dce_round_removed. apply in_flat_map. exists (l, b). split; [apply lookup_In; exact Hb|exact Hin]. }
     rewrite L4 in H. destruct H.
 Qed.
+
+(* the proviso is necessary: b0 (entry and exit): x := y / z with x dead.  DCE removes the division;
+   from a store with z = 0 the transformed CFG finishes, the original has no successor state *)
+Definition ex_div : cfg :=
+  mkCfg 0%N (Some 0%N) [(0%N, mkBlock [SArith OpSDiv 0%N 1%N (OVar 2%N)] [] [])] [].
+Example ex_proviso_needed : exists Q, dce ex_div = Some Q /\
+  star Q (init Q (fun _ => 0%Z)) [EvExit []] Done /\
+  ~ star ex_div (init ex_div (fun _ => 0%Z)) [EvExit []] Done.
+Proof.
+  eexists. split; [vm_compute; reflexivity|]. split.
+  - match goal with |- star ?Q _ _ _ =>
+      change (star Q (Run 0%N [] (fun _ : var => 0%Z)) [EvExit (map (fun _ : var => 0%Z) (c_outs Q))] Done) end.
+    apply star_one. apply StExit. reflexivity.
+  - intros H. inversion H as [|c ev c1 tr c2 S1 St E1 E2 E3]; subst.
+    inversion S1 as [l st r s ev0 s1 X | | |]; subst.
+    inversion X; subst. simpl in *. discriminate.
+Qed.
